@@ -471,6 +471,10 @@ class DisjunctionMax(CompoundQuery):
     document using the maximum score from the subqueries.
     """
 
+    # This is used by the superclass's normalize() method to merge overlapping
+    # ranges (a disjunction matches the union, like Or)
+    intersect_merge = False
+
     def __init__(self, subqueries, boost=1.0, tiebreak=0.0):
         CompoundQuery.__init__(self, subqueries, boost=boost)
         self.tiebreak = tiebreak
